@@ -58,6 +58,27 @@ func profileByName(name string) Profile {
 		p.WKV, p.WList, p.WSet, p.WZSet = 3, 2, 2, 2
 		p.Abort, p.Oversize, p.ReadOnly, p.DoneCalls = 35, 12, 25, 25
 		p.Reopen = 25
+	case "merge":
+		// Merge at arbitrary points, repeatedly, then more writes and reopen (C15); no lists (known finding F14)
+		p.WKV, p.WList, p.WSet, p.WZSet = 4, 0, 2, 2
+		p.Merge = 30
+		p.Reopen = 25
+		p.Txs = 16
+		p.Segs = []int{150, 200, 300}
+		p.Modes = []int{0}
+	case "merge1":
+		p.WKV, p.WList, p.WSet, p.WZSet = 4, 0, 2, 2
+		p.Merge = 30
+		p.Reopen = 25
+		p.Txs = 16
+		p.Segs = []int{150, 200, 300}
+		p.Modes = []int{1}
+	case "mergelist":
+		p.WKV, p.WList, p.WSet, p.WZSet = 2, 3, 1, 1
+		p.Merge = 30
+		p.Reopen = 25
+		p.Txs = 14
+		p.Segs = []int{150, 200, 300}
 	case "raw":
 		// transactions that read, pop or validate structures they already modified (C13)
 		p.WKV, p.WList, p.WSet, p.WZSet = 2, 3, 2, 3
@@ -93,6 +114,9 @@ func suiteHist(seed uint64, n int, work, prof string) {
 		return
 	case "power":
 		suiteCrash(seed, n, work, true)
+		return
+	case "mergecrash":
+		suiteMergeCrash(seed, n, work)
 		return
 	case "modes":
 		suiteModes(seed, n, work)
